@@ -160,3 +160,37 @@ struct erealx<T, Index<I...>, Index<J...>, OIndex<O...>, Tensor<T,DA...>, Tensor
     }
 };
 #define EINSUMX_REAL(T, I, J, O, DA, DB, SEED) erealx<T, Index<I>, Index<J>, OIndex<O>, Tensor<T, DA>, Tensor<T, DB>>::run(SEED)
+
+// --- n operands (3..8): einsum<Index<..>,Index<..>,...>(a,b,c,...) against the naive Einstein sum; the declared result
+// type must carry the non-repeated indices in order of first appearance with their extents, whatever pairwise evaluation
+// order the cost model picks (C15).  Called as  erealn<T, tlist<Index<..>...>, tlist<Tensor<T,..>...>>::run(seed);
+#include <tuple>
+#include <utility>
+template<typename... Xs> struct tlist {};
+template<typename Ind> struct idxvec;
+template<size_t... I> struct idxvec<Index<I...>> { static std::vector<size_t> vec() { return evec<I...>(); } static std::string str() { return ejoin<I...>(); } };
+template<typename TT> struct dimstr;
+template<typename T, size_t... D> struct dimstr<Tensor<T,D...>> { static std::string str() { return ejoin<D...>(); } };
+template<typename T, typename IndList, typename TenList> struct erealn;
+template<typename T, typename... Inds, typename... Tens>
+struct erealn<T, tlist<Inds...>, tlist<Tens...>> {
+    template<size_t... K> static auto call(std::tuple<Tens...>& ops, std::index_sequence<K...>) -> decltype(einsum<Inds...>(std::get<K>(ops)...)) { return einsum<Inds...>(std::get<K>(ops)...); }
+    template<size_t... K> static void fillall(std::tuple<Tens...>& ops, uint32_t& s, std::index_sequence<K...>) { int d[] = {(efill(std::get<K>(ops), s), 0)...}; (void)d; }
+    template<size_t... K> static std::vector<EOp> eops(std::tuple<Tens...>& ops, std::index_sequence<K...>) { return std::vector<EOp>{eop_of(std::get<K>(ops), idxvec<Inds>::vec())...}; }
+    static void run(unsigned seed) {
+        uint32_t s = seed * 2654435761u + 55u;
+        std::tuple<Tens...> ops; auto seq = std::index_sequence_for<Tens...>{};
+        fillall(ops, s, seq);
+        std::vector<size_t> rd; auto ref = einstein_ll(eops(ops, seq), {}, true, rd);
+        auto o = call(ops, seq);
+        std::string fail = ecompare(o, ref, rd);
+        std::string is, ds; { std::string a[] = {idxvec<Inds>::str()...}; std::string b[] = {dimstr<Tens>::str()...};
+            for (size_t k = 0; k < sizeof...(Inds); ++k) { is += (k ? ";" : "") + a[k]; ds += (k ? ";" : "") + b[k]; } }
+#ifdef FASTOR_DONT_PERFORM_OP_MIN
+        const int opmin = 0;
+#else
+        const int opmin = 1;
+#endif
+        std::printf("einsumn_real cfg=%s opmin=%d T=%s n=%zu I=%s d=%s | %s%s\n", ecfg().c_str(), opmin, etn<T>::n(), sizeof...(Inds), is.c_str(), ds.c_str(), fail.empty() ? "ok" : "FAIL", fail.c_str());
+    }
+};
